@@ -208,6 +208,98 @@ fn interrupted_flush(case: &Case, fe: usize, k: u64, clean: &[u8], ev: &mut Ev) 
     }
 }
 
+/// The same statement at the command line: a build whose output could not be written completely must not exit with status 0.
+/// Outputs: a pipe whose reader goes away after a few bytes (EPIPE in the middle of a 1.8 MB output), /dev/full (ENOSPC), and - as
+/// controls that must succeed - a pipe that is read to the end and a regular file.
+fn cli_sinks(ctx: &Ctx, ev: &mut Ev) {
+    use std::io::Read;
+    use std::process::{Command, Stdio};
+    let bin = match std::env::var_os("FST_BIN") {
+        Some(b) => std::path::PathBuf::from(b),
+        None => {
+            ev.count("cli-sinks:binary-not-available");
+            return;
+        }
+    };
+    let dir = ctx.root.join("target").join("tmp").join(format!("c11-cli-{}", std::process::id()));
+    let _ = std::fs::remove_dir_all(&dir);
+    if std::fs::create_dir_all(&dir).is_err() {
+        return;
+    }
+    // incompressible sorted keys: the FST is far larger than a pipe buffer
+    let mut rng = crate::rng::Rng::new(ctx.seed, 0xC11C11);
+    let mut keys: Vec<String> = (0..120_000).map(|_| (0..12).map(|_| (b'a' + rng.below(26) as u8) as char).collect()).collect();
+    keys.sort();
+    keys.dedup();
+    let set_in = dir.join("set.txt");
+    let map_in = dir.join("map.csv");
+    let _ = std::fs::write(&set_in, keys.iter().map(|k| format!("{}\n", k)).collect::<String>());
+    let _ = std::fs::write(&map_in, keys.iter().enumerate().map(|(i, k)| format!("{},{}\n", k, i * 7)).collect::<String>());
+    // a smaller already built FST for `fst union`
+    let small_in = dir.join("small.txt");
+    let _ = std::fs::write(&small_in, keys.iter().step_by(2).map(|k| format!("{}\n", k)).collect::<String>());
+    let half = dir.join("half.fst");
+    let whole = dir.join("whole.fst");
+    let _ = Command::new(&bin).args(&["set", "--sorted"]).arg(&small_in).arg(&half).arg("--force").output();
+    let _ = Command::new(&bin).args(&["set", "--sorted"]).arg(&set_in).arg(&whole).arg("--force").output();
+    let cmds: Vec<(&str, Vec<std::ffi::OsString>)> = vec![
+        ("set --sorted", vec!["set".into(), "--sorted".into(), set_in.clone().into()]),
+        ("map --sorted", vec!["map".into(), "--sorted".into(), map_in.clone().into()]),
+        ("set (unsorted)", vec!["set".into(), set_in.clone().into()]),
+        ("union", vec!["union".into(), half.clone().into(), whole.clone().into()]),
+    ];
+    for (name, args) in &cmds {
+        // the union sub-command takes its output first
+        let with_out = |out: &str| -> Vec<std::ffi::OsString> {
+            let mut v = args.clone();
+            if *name == "union" {
+                v.insert(1, out.into());
+            } else {
+                v.push(out.into());
+            }
+            v.push("--force".into());
+            v
+        };
+        // 1. reader goes away
+        if let Ok(mut child) = Command::new(&bin).args(with_out("-")).stdin(Stdio::null()).stdout(Stdio::piped()).stderr(Stdio::null()).env_remove("FST_VERIF_SEED").env_remove("FST_VERIF_TRACE").spawn() {
+            let mut first = [0u8; 16];
+            let got = child.stdout.as_mut().map(|o| o.read(&mut first).unwrap_or(0)).unwrap_or(0);
+            drop(child.stdout.take());
+            let st = child.wait().ok();
+            ev.eval(Some(crate::rng::fnv(name.as_bytes())));
+            if got == 0 {
+                // this sub-command does not stream to standard output (or failed before writing): nothing to judge
+                ev.count("cli-sinks:no-output-on-stdout(not judged)");
+            } else {
+                ev.count("cli-sinks:reader-went-away");
+                if st.map(|s| s.success()).unwrap_or(false) {
+                    ev.violate("fault-swallowed", format!("`fst {}` writing ~1.8 MB to a pipe whose reader went away after 16 bytes exits with status 0", name), J::s(*name));
+                }
+            }
+        }
+        // 2. device full
+        let st = Command::new(&bin).args(with_out("/dev/full")).stdin(Stdio::null()).stdout(Stdio::null()).stderr(Stdio::null()).env_remove("FST_VERIF_SEED").env_remove("FST_VERIF_TRACE").status();
+        ev.eval(Some(crate::rng::fnv(name.as_bytes()) ^ 1));
+        if let Ok(st) = st {
+            ev.count("cli-sinks:device-full");
+            if st.success() {
+                ev.violate("fault-swallowed", format!("`fst {}` writing to /dev/full exits with status 0", name), J::s(*name));
+            }
+        }
+        // 3. control: a regular file must work
+        let okf = dir.join("ok.fst");
+        let st = Command::new(&bin).args(with_out(okf.to_str().unwrap_or("ok.fst"))).stdin(Stdio::null()).stdout(Stdio::null()).stderr(Stdio::null()).env_remove("FST_VERIF_SEED").env_remove("FST_VERIF_TRACE").status();
+        ev.eval(Some(crate::rng::fnv(name.as_bytes()) ^ 2));
+        if let Ok(st) = st {
+            ev.count("cli-sinks:regular-file-control");
+            if !st.success() {
+                ev.violate("spurious-error", format!("`fst {}` writing to a regular file fails", name), J::s(*name));
+            }
+        }
+    }
+    let _ = std::fs::remove_dir_all(&dir);
+}
+
 pub fn inputs(ctx: &Ctx) -> Vec<Case> {
     let mut v = crate::checks::c07::small_cases(ctx, ctx.tier.pick(150, 600));
     // force all-zero values for every 3rd so set front ends apply
@@ -315,6 +407,8 @@ pub fn run(ctx: &Ctx) -> i32 {
             }
         }
     });
+    let mut ev = ev;
+    cli_sinks(ctx, &mut ev);
     finish(
         ctx,
         ev,
@@ -332,6 +426,8 @@ pub fn run(ctx: &Ctx) -> i32 {
                 ("fault:error-return-with-structured-payload", 100),
                 ("fault:in-the-middle-of-a-logical-write", 1000),
                 ("fault:device-full", 1000),
+                ("cli-sinks:device-full", 4),
+                ("cli-sinks:reader-went-away", 2),
                 ("runs-without-fault-reached", 10),
                 ("bufwriter-series", 10),
             ],
